@@ -192,6 +192,7 @@ def run_cases(name, cases, shards=None):
     for i, c in enumerate(cases):
         c.setdefault("id", "%s-%05d" % (name, i))
         c.setdefault("debug", i % 3 == 1)      # the debug argument must be inert
+        c.setdefault("reuseVar", i % 2 == 0)   # the caller's channel variable may be one that earlier calls used too
     return vlib.run_harness("proto", cases, name, shards=shards)
 
 
